@@ -122,6 +122,10 @@ fn build_pool() -> Pool {
     add(&mut s, "expression-cfa", cie_f, Cfa::new().advance(1).expression(3, &breg0_16).advance(1).def_cfa(7, 16).advance(1).def_cfa_expression(&breg0_16));
     add(&mut s, "stack-full-saving-initial-rules", cie_g, Cfa::new().advance(1).restore_state().advance(1));
     add(&mut s, "def_cfa_offset-on-expression-cfa", cie_f, Cfa::new().advance(1).def_cfa_offset(8).advance(1));
+    // GNU_args_size executed on the bottom row (no remember_state above it): a reset that
+    // re-uses the bottom row must clear the saved argument size as well
+    add(&mut s, "args-size-on-bottom-row(zero-rule-cie)", cie_a, Cfa::new().advance(1).args_size(0x20).advance(1).offset(6, 2));
+    add(&mut s, "args-size-on-bottom-row(one-rule-cie)", cie_b, Cfa::new().args_size(0x8).advance(2).args_size(0x18).advance(1));
     let bytes: &'static [u8] = Box::leak(s.e.buf.into_boxed_slice());
     let mut section = DebugFrame::new(bytes, LittleEndian);
     section.set_address_size(8);
